@@ -441,6 +441,10 @@ func runC09(res *Result, tier string, seed int64, replay string) {
 			res.Count("cell=fails(same-root-cause-as-single-level)")
 			return false
 		}
+		if strings.HasPrefix(level, "tag-default(") && reported[e.Tag+"/"+attr+"/tag-default"] {
+			res.Count("cell=fails(same-root-cause-as-single-level)")
+			return false
+		}
 		if strings.HasPrefix(level, "mj-class(") && reported[e.Tag+"/"+attr+"/mj-class"] {
 			res.Count("cell=fails(same-root-cause-as-single-level)")
 			return false
@@ -507,6 +511,17 @@ func runC09(res *Result, tier string, seed int64, replay string) {
 				find(d).Set("mj-class", "m1")
 			}), find, attr, v1, "mj-class", informative)
 			noop(withHead(func(at, d *Node) { at.Kids = append(at.Kids, mk(tag, attr, v1)) }), find, attr, v1, "tag-default", informative)
+			// the tag's defaults written as several entries, in one mj-attributes block or in two: entries merge, none replaces another
+			if attr != "css-class" {
+				noop(withHead(func(at, d *Node) { at.Kids = append(at.Kids, mk(tag, attr, v1), mk(tag, "css-class", "zz9")) }), find, attr, v1, "tag-default(split,first)", informative)
+				noop(withHead(func(at, d *Node) { at.Kids = append(at.Kids, mk(tag, "css-class", "zz9"), mk(tag, attr, v1)) }), find, attr, v1, "tag-default(split,last)", informative)
+				noop(func() *Node {
+					d := withHead(func(at, d *Node) { at.Kids = append(at.Kids, mk(tag, attr, v1)) })
+					at2 := &Node{Tag: "mj-attributes", Kids: []*Node{mk(tag, "css-class", "zz9"), mk("mj-all", attr, v2)}}
+					d.Kids[0].Kids = append(d.Kids[0].Kids, at2)
+					return d
+				}(), find, attr, v1, "tag-default(two-blocks)>mj-all", informative)
+			}
 			allDoc := withHead(func(at, d *Node) { at.Kids = append(at.Kids, mk("mj-all", attr, v1)) })
 			// mj-all reaches every element: test each element of the context separately (attributed to ITS tag)
 			var elems []*Node
